@@ -15,22 +15,13 @@ def needData (dst : Dest) (reach : List CTree) : List Nat :=
 def TypedDisjoint (dst : Dest) (roots : List Nat) (reach : List CTree) : Prop :=
   ∀ t ∈ needTrees dst roots reach, t ∉ needData dst reach
 
-theorem copyStep_trees {dst : Dest} {roots : List Nat} {reach : List CTree} (h : TypedDisjoint dst roots reach)
+theorem copyStep_trees {dst : Dest} {roots : List Nat} {reach : List CTree}
     {t : Nat} (ht : t ∈ roots ++ reach.flatMap (·.kids)) : t ∈ (copyStep dst roots reach).trees := by
   unfold copyStep
   simp only [List.mem_append]
   by_cases hd : t ∈ dst.trees
   · exact Or.inl hd
-  · right
-    have hn : t ∈ needTrees dst roots reach := by
-      unfold needTrees
-      exact List.mem_filter.mpr ⟨ht, by simpa using hd⟩
-    refine List.mem_filter.mpr ⟨hn, ?_⟩
-    have := h t hn
-    unfold needData at this
-    cases hc : List.contains (List.filter (fun d => !dst.data.contains d) (reach.flatMap (·.data))) t with
-    | false => rfl
-    | true => exact absurd (List.contains_iff_mem.mp hc) this
+  · exact Or.inr (List.mem_filter.mpr ⟨ht, by simpa using hd⟩)
 
 theorem copyStep_data {dst : Dest} {roots : List Nat} {reach : List CTree}
     {d : Nat} (hd : d ∈ reach.flatMap (·.data)) : d ∈ (copyStep dst roots reach).data := by
@@ -40,13 +31,19 @@ theorem copyStep_data {dst : Dest} {roots : List Nat} {reach : List CTree}
   · exact Or.inl h
   · exact Or.inr (List.mem_filter.mpr ⟨hd, by simpa using h⟩)
 
-theorem copy_complete {dst : Dest} {roots : List Nat} {reach : List CTree} (h : TypedDisjoint dst roots reach) :
+theorem copy_complete (dst : Dest) (roots : List Nat) (reach : List CTree) :
     destComplete (copyStep dst roots reach) roots reach = true := by
   unfold destComplete
   simp only [Bool.and_eq_true, List.all_eq_true, List.contains_iff_mem]
-  refine ⟨fun r hr => copyStep_trees h (List.mem_append_left _ hr), fun t ht => ⟨fun k hk => ?_, fun d hd => ?_⟩⟩
-  · exact copyStep_trees h (List.mem_append_right _ (List.mem_flatMap.mpr ⟨t, ht, hk⟩))
+  refine ⟨fun r hr => copyStep_trees (List.mem_append_left _ hr), fun t ht => ⟨fun k hk => ?_, fun d hd => ?_⟩⟩
+  · exact copyStep_trees (List.mem_append_right _ (List.mem_flatMap.mpr ⟨t, ht, hk⟩))
   · exact copyStep_data (List.mem_flatMap.mpr ⟨t, ht, hd⟩)
+
+/-- a second run copies nothing more (everything needed is already in the destination) -/
+theorem copy_idempotent_trees (dst : Dest) (roots : List Nat) (reach : List CTree) (t : Nat)
+    (ht : t ∈ roots ++ reach.flatMap (·.kids)) :
+    t ∈ (copyStep (copyStep dst roots reach) roots reach).trees :=
+  copyStep_trees ht
 
 /-! ### repair -/
 
